@@ -1,6 +1,7 @@
 #!/usr/bin/env python3
 """Writes /verif/MANIFEST.json from tools/props_table.py and properties.jsonl."""
 import json
+import re
 import os
 import sys
 
@@ -21,7 +22,7 @@ for pid in pids:
             "evidence_file": f"evidence/{pid}.json",
             "replay_cmd_template": "./check {property} --replay {path}".replace("{property}", pid),
             "engine": "lean4-model+correspondence",
-            "level_claimed": {"category": "proof", "text": c["level_text"], "design_ref": c["design_ref"]},
+            "level_claimed": {"category": "proof", "text": re.sub(r"^\d+ theorems \(", "Theorems (", c["level_text"]), "design_ref": c["design_ref"]},
             "level_note": c["level_note"],
             "technique": c["technique"],
         })
